@@ -61,8 +61,57 @@ _CHECK = None
 _STATES = set()
 
 
+_COV = None
+
+
+def _coverage_start():
+    """VERIF_COVERAGE=<dir>: record which source lines of the repository under test the simulated runs execute (a
+    reach measure: lines of the anchored files no run ever executes are behaviour no check can judge).  Uses its own
+    sys.monitoring tool id with LINE events that disable themselves after the first hit, so the cost is one callback
+    per line per worker; it draws no random number and reads no clock, so schedules and digests are unchanged."""
+    global _COV
+    d = os.environ.get("VERIF_COVERAGE")
+    mon = getattr(sys, "monitoring", None)
+    if not d or mon is None or _COV is not None:
+        return
+    root = os.path.join(os.path.realpath(os.environ.get("VERIF_REPO", "/repo")), "mpgameserver") + os.sep
+    hits = set()
+    tool = 3
+    try:
+        mon.use_tool_id(tool, "verif-coverage")
+    except Exception:       # noqa
+        return
+
+    def on_line(code, line):
+        fn = code.co_filename
+        if fn.startswith(root):
+            hits.add((fn[len(root):], line))
+        return mon.DISABLE
+    mon.register_callback(tool, mon.events.LINE, on_line)
+    mon.set_events(tool, mon.events.LINE)
+    _COV = (d, hits)
+
+
+def _coverage_flush():
+    if _COV is None:
+        return
+    d, hits = _COV
+    os.makedirs(d, exist_ok=True)
+    path = os.path.join(d, "%s-%d.json" % (getattr(_CHECK, "pid", "x"), os.getpid()))
+    json.dump(sorted(hits), open(path + ".tmp", "w"))
+    os.replace(path + ".tmp", path)
+
+
 def _worker(args):
     idxs, cases, wall_s = args
+    _coverage_start()
+    try:
+        return _worker_impl(idxs, cases, wall_s)
+    finally:
+        _coverage_flush()
+
+
+def _worker_impl(idxs, cases, wall_s):
     out = []
     for i, case in zip(idxs, cases):
         t = time.time()
@@ -410,6 +459,9 @@ def write_evidence(check, tier, seed, results, wall, skipped, known_seen, n_new,
     if extra:
         ev["coverage"].update(extra(ok))
     d = os.path.join(VERIF, "evidence")
+    if os.path.realpath(os.environ.get("VERIF_REPO", "/repo")) != "/repo":
+        # a run against another tree (a seeded change in a scratch worktree) must not overwrite the evidence of /repo
+        d = os.environ.get("VERIF_EVIDENCE_DIR") or "/tmp/verif-evidence-scratch"
     os.makedirs(d, exist_ok=True)
     tmp = os.path.join(d, check.pid + ".json.tmp")
     json.dump(ev, open(tmp, "w"), indent=1, default=str)
